@@ -71,6 +71,11 @@ STRESS = [
     ("start = {a}* 'v' $ ;\na = 'x' ( 'q' `1/0` | 'r' ) ;", ['x q v', 'x r v', 'x q x r v', 'v']),
     ("start = a a 'v' ;\na = 'x' { 'q' `{[1]:2}` } ;", ['x x v', 'x q x v', 'x x q v']),
     ("start = [a] 'x' 'q' $ ;\na = 'x' [ 'q' `1/0` ] 'z' ;", ['x q', 'x q z', 'x z']),
+    # input nested deeper than the interpreter's recursion limit allows (the grammar is not left recursive); a numeric rule parameter
+    # with more digits than Python converts
+    ("start = e $ ;\ne = '(' e ')' | 'x' ;", ['(' * 2500 + 'x' + ')' * 2500, '(' * 2500, '(((x)))']),
+    ("start = {e}+ $ ;\ne = '[' {e} ']' | 'x' ;", ['[' * 3000 + ']' * 3000, '[[x]x]']),
+    "start(" + "9" * 5000 + ") = 'a' ;", "start[x=" + "7" * 4400 + "] = 'a' ;",
     # constants that use a captured value which may be missing (None) or unsuitable: whatever the evaluation raises - AttributeError,
     # IndexError, KeyError, ValueError, TypeError, NameError, OverflowError - the parse reports a failure
     ("start = n:'a' [p:'b'] l:`{n}-{p.zfill(4)}` $ ;", ['a b', 'a']), ("start = n:'a' [p:'b'] l:`p.upper()` $ ;", ['a b', 'a']),
